@@ -13,9 +13,10 @@
 (* Evaluate(o) is ONE action = one call of reevaluate(): it produces the     *)
 (* sequence of REST calls; o[a] is the API's answer for application a        *)
 (* (ok / notfound / badrequest / validation / error), chosen by the          *)
-(* environment.  The clauses of C20 are evaluated on the ghost `ev` = (pre,  *)
-(* calls) of the last evaluation with the operators of AppMonOps, the same   *)
-(* ones AppMonTrace.tla applies to recorded executions.                      *)
+(* environment.  The clauses of C20 are evaluated, in every reachable state,  *)
+(* on (what the monitor holds, the calls an evaluation issues from there)    *)
+(* with the operators of AppMonOps, the same ones AppMonTrace.tla applies to *)
+(* recorded executions.                                                      *)
 (* Defects: "max_allowed" (min -> max), "lifo_wrong_end", "no_deduct",       *)
 (* "ignore_suspended", "create_and_delete", "overfill" - model mutants.      *)
 EXTENDS AppMonOps, TLC
@@ -31,11 +32,9 @@ vars == <<st>>
 
 TOK == 3600
 Apps == {AppSeq[i] : i \in DOMAIN AppSeq}
-NoEv == [pre |-> [now |-> 0, mon |-> EmptyFn, susp |-> EmptyFn, view |-> EmptyFn], calls |-> <<>>]
-
 Init == st = [now |-> 0, mon |-> EmptyFn, susp |-> EmptyFn,
               view |-> [a \in Apps |-> {}], pend |-> [a \in Apps |-> [create |-> 0, delete |-> {}]],
-              nextid |-> 1, steps |-> 0, ev |-> NoEv]
+              nextid |-> 1, steps |-> 0]
 
 Step(s) == [s EXCEPT !.steps = @ + 1]
 More == st.steps < MaxSteps
@@ -103,50 +102,55 @@ Extra(a) ==
              THEN (IF m.policy = "lifo" THEN "fifo" ELSE "lifo") ELSE m.policy
   IN SurplusSet(st.view[a], k, pol)
 
-(* the calls of application a, in the order of the code *)
-CallsOf(a, o) ==
-  IF ~IsActive(a) THEN <<>>
-  ELSE LET m == RefilledMon(a)
-           cur == Cardinality(st.view[a])
-           mk == IF m.count > cur /\ Allowed(a) > 0
-                 THEN <<[app |-> a, op |-> "create", n |-> Allowed(a), insts |-> {}, o |-> o]>>
-                 ELSE <<>>
-           rm == IF m.count < cur \/ ("create_and_delete" \in Defects /\ mk # <<>> /\ cur > 0)
-                 THEN <<[app |-> a, op |-> "delete", n |-> 0,
-                         insts |-> IF m.count < cur THEN Extra(a) ELSE st.view[a],
-                         o |-> IF o = "ok" THEN "ok" ELSE "error"]>>
-                 ELSE <<>>
-       IN mk \o rm
+(* everything reevaluate() does for application a, given the API's answer o *)
+EvalApp(a, o) ==
+  LET act == IsActive(a)
+      m == RefilledMon(a)
+      cur == Cardinality(st.view[a])
+      alw == IF act /\ m.count > cur THEN Allowed(a) ELSE 0
+      mk == IF alw > 0
+            THEN <<[app |-> a, op |-> "create", n |-> alw, insts |-> {}, o |-> o]>> ELSE <<>>
+      del == act /\ (m.count < cur \/ ("create_and_delete" \in Defects /\ alw > 0 /\ cur > 0))
+      gone == IF m.count < cur THEN Extra(a) ELSE st.view[a]
+      rm == IF del
+            THEN <<[app |-> a, op |-> "delete", n |-> 0, insts |-> gone,
+                    o |-> IF o = "ok" THEN "ok" ELSE "error"]>> ELSE <<>>
+  IN [calls |-> mk \o rm,
+      mon |-> IF alw > 0 /\ o = "ok" /\ "no_deduct" \notin Defects
+              THEN [m EXCEPT !.avail = @ - alw * TOK] ELSE m,
+      fail |-> alw > 0 /\ o \in Failing,
+      pcreate |-> IF alw > 0 /\ o = "ok" THEN alw ELSE 0,
+      pdelete |-> IF del /\ o = "ok" THEN gone ELSE {}]
+
+(* answers matter only where there is a call; a bulk delete either works or not *)
+OutFor(a) ==
+  IF a \notin DOMAIN st.mon THEN {"ok"}
+  ELSE LET r == EvalApp(a, "ok") IN
+       IF r.calls = <<>> THEN {"ok"}
+       ELSE IF r.calls[1].op = "create" THEN EvalOutcomes
+       ELSE EvalOutcomes \cap {"ok", "error"}
 
 RECURSIVE AllCalls(_, _)
 AllCalls(j, o) == IF j > Len(AppSeq) THEN <<>>
-                  ELSE (IF AppSeq[j] \in DOMAIN st.mon THEN CallsOf(AppSeq[j], o[AppSeq[j]]) ELSE <<>>)
-                       \o AllCalls(j + 1, o)
-
-Calling(a) == a \in DOMAIN st.mon /\ CallsOf(a, "ok") # <<>>
+                  ELSE (IF AppSeq[j] \in DOMAIN st.mon THEN EvalApp(AppSeq[j], o[AppSeq[j]]).calls
+                        ELSE <<>>) \o AllCalls(j + 1, o)
 
 Evaluate(o) ==
   /\ More
   /\ o \in [Apps -> EvalOutcomes]
-  /\ \A a \in Apps : ~Calling(a) => o[a] = "ok"          \* answers matter only where there is a call
-  /\ LET calls == AllCalls(1, o)
-         created(a) == Created(calls, a)
-         okc(a) == created(a) > 0 /\ o[a] = "ok"
-         failed(a) == created(a) > 0 /\ o[a] \in Failing
-         mon1 == [a \in DOMAIN st.mon |->
-                    LET m == RefilledMon(a) IN
-                    IF okc(a) /\ "no_deduct" \notin Defects
-                    THEN [m EXCEPT !.avail = @ - created(a) * TOK] ELSE m]
+  /\ \A a \in Apps : o[a] \in OutFor(a)
+  /\ LET r == [a \in DOMAIN st.mon |-> EvalApp(a, o[a])]
          keep == {a \in DOMAIN st.susp : a \in DOMAIN st.mon /\ st.susp[a] > st.now}
-         susp1 == [a \in keep \cup {x \in DOMAIN st.mon : failed(x)} |->
-                     IF a \in DOMAIN st.mon /\ failed(a) THEN st.now + DelayS ELSE st.susp[a]]
-         pend1 == [a \in Apps |->
-                     [create |-> st.pend[a].create + (IF okc(a) THEN created(a) ELSE 0),
-                      delete |-> st.pend[a].delete \cup
-                                 UNION {calls[i].insts : i \in {x \in Idx(calls, a, "delete") :
-                                                                  calls[x].o = "ok"}}]]
-     IN st' = Step([st EXCEPT !.mon = mon1, !.susp = susp1, !.pend = pend1,
-                              !.ev = [pre |-> Pre, calls |-> calls]])
+         failing == {a \in DOMAIN st.mon : r[a].fail}
+     IN st' = Step([st EXCEPT
+            !.mon = [a \in DOMAIN st.mon |-> r[a].mon],
+            !.susp = [a \in keep \cup failing |->
+                        IF a \in failing THEN st.now + DelayS ELSE st.susp[a]],
+            !.pend = [a \in Apps |->
+                        IF a \in DOMAIN st.mon
+                        THEN [create |-> st.pend[a].create + r[a].pcreate,
+                              delete |-> st.pend[a].delete \cup r[a].pdelete]
+                        ELSE st.pend[a]]])
 
 Next ==
   \/ \E a \in Apps, c \in Counts, p \in Policies : Configure(a, c, p)
@@ -161,10 +165,13 @@ Next ==
 Spec == Init /\ [][Next]_vars
 
 -----------------------------------------------------------------------------
-(* C20 on the last evaluation (step clauses) and on the bucket (state clause) *)
-InvNoOvershoot == NoOvershoot(st.ev.pre, st.ev.calls)
-InvBudget == BudgetStep(st.ev.pre, st.ev.calls, TOK, 0) /\ BudgetState(st.mon, TOK, 0)
-InvSurplus == Surplus(st.ev.pre, st.ev.calls)
-InvNotBoth == NotBoth(st.ev.calls)
-InvQuiet == Quiet(st.ev.pre, st.ev.calls)
+(* C20: in EVERY reachable state the evaluation that would start there obeys  *)
+(* the step clauses (the calls do not depend on the API's answers), and the   *)
+(* bucket obeys the state clause.                                             *)
+AllOk == [a \in Apps |-> "ok"]
+InvNoOvershoot == NoOvershoot(Pre, AllCalls(1, AllOk))
+InvBudget == BudgetStep(Pre, AllCalls(1, AllOk), TOK, 0) /\ BudgetState(st.mon, TOK, 0)
+InvSurplus == Surplus(Pre, AllCalls(1, AllOk))
+InvNotBoth == NotBoth(AllCalls(1, AllOk))
+InvQuiet == Quiet(Pre, AllCalls(1, AllOk))
 =============================================================================
